@@ -21,7 +21,9 @@ func NewUTXOSandbox(cfg *contract.SandboxConfig) *UTXOSandbox {
 }
 
 func (u *UTXOSandbox) Transfer(from, to string, amount *big.Int) error {
-	if amount.Cmp(new(big.Int)) == 0 {
+	// a negative amount would be recorded as an output of its absolute value plus a change output
+	// of total+|amount|: outputs worth more than the inputs
+	if amount.Sign() <= 0 {
 		return errors.New("should  be large than zero")
 	}
 	inputs, _, total, err := u.utxoReader.SelectUtxo(from, amount, true, false)
